@@ -27,6 +27,7 @@ type Variant struct {
 	NodeVal    *Key // identity (nil = validator 0)
 	NodeSeed   byte
 	Rotation   config.ChainStateRotationCfg
+	NoIndex    bool                                 // C01: a node run with Tendermint's "null" transaction indexer
 	SkipFailed map[[2]int]bool                      // C06: (block, tx index) to leave out
 	Checks     func(r *Replica, block int, pos int) // C07: called at every call boundary (pos: -1 before BeginBlock, k after k-th item, 1000 after EndBlock, 1001 after Commit)
 	CrashAt    map[[2]int]bool                      // C08: crash at boundary (block, pos) (pos as above; pos 1001 = after commit)
@@ -108,7 +109,7 @@ func runVariant(w *World, gen *GenesisSpec, h *History, v *Variant, dumpHeights 
 	if v.NodeVal != nil {
 		nodeVal = *v.NodeVal
 	}
-	rep := NewReplica(gen, ReplicaOpts{NodeVal: nodeVal, NodeSeed: v.NodeSeed, Rotation: v.Rotation})
+	rep := NewReplica(gen, ReplicaOpts{NodeVal: nodeVal, NodeSeed: v.NodeSeed, Rotation: v.Rotation, NoIndex: v.NoIndex})
 	tr = &Transcript{Dumps: map[int64]map[string]string{}}
 	defer func() {
 		if e := recover(); e != nil {
@@ -312,6 +313,42 @@ type TwinReport struct {
 	ChecksRun   int            `json:"checktx_calls"`
 }
 
+// reincludedHistory: h with every third transaction of a block included again, byte-identical, three blocks later
+func reincludedHistory(h *History) *History {
+	out := &History{Name: h.Name + "+reincluded"}
+	for _, b := range h.Blocks {
+		out.Blocks = append(out.Blocks, BlockIn{Txs: append([][]byte{}, b.Txs...), Absent: b.Absent, Byzantine: b.Byzantine, DT: b.DT})
+	}
+	for len(out.Blocks) < len(h.Blocks)+3 {
+		out.Blocks = append(out.Blocks, BlockIn{Absent: map[int]bool{}})
+	}
+	for bi, b := range h.Blocks {
+		d := []string{}
+		if bi < len(h.Descr) {
+			d = h.Descr[bi]
+		}
+		_ = d
+		for ti, tx := range b.Txs {
+			if ti%3 == 0 {
+				out.Blocks[bi+3].Txs = append(out.Blocks[bi+3].Txs, tx)
+			}
+		}
+	}
+	for bi := range out.Blocks {
+		d := make([]string, len(out.Blocks[bi].Txs))
+		for ti := range d {
+			d[ti] = "scenario"
+			if bi < len(h.Descr) && ti < len(h.Descr[bi]) {
+				d[ti] = h.Descr[bi][ti]
+			} else {
+				d[ti] = "included again"
+			}
+		}
+		out.Descr = append(out.Descr, d)
+	}
+	return out
+}
+
 // the account that sends the probe payments of the C06 histories (nobody else uses it)
 var twinProbe = seedKey(150)
 
@@ -403,6 +440,17 @@ func twinMain(args []string) int {
 		}
 		for i := 0; i < *nh; i++ {
 			jobs = append(jobs, job{gens[i%len(gens)], genHistory(r, w, *nb, *tpb), r.Int63()})
+		}
+		if *mode == "c01" {
+			// a block may contain bytes that an earlier block already contained (nothing in Tendermint's block
+			// validity forbids it; its mempool cache is bounded and empty after a restart): every directed history
+			// once more with some of its executed payments included again three blocks later
+			for _, j := range append([]job{}, jobs[:len(scenarioNames)]...) {
+				if j.h.Name == "ethlock" {
+					continue
+				}
+				jobs = append(jobs, job{j.genName, reincludedHistory(j.h), j.vseed + 2})
+			}
 		}
 		if *mode == "c06" {
 			// every history once more with a probe payment after each transaction: what a refused transaction
@@ -688,6 +736,9 @@ func buildVariants(mode string, w *World, h *History, base *Transcript, r *rand.
 			// their mempools see, never in what the blocks make them compute
 			{Name: "with-mempool-traffic", Checks: c01Mempool(w, h, r, rep)},
 			{Name: "other-validator-with-mempool-traffic", NodeVal: &nv, NodeSeed: 6, Checks: c01Mempool(w, h, r, rep)},
+			// a node configured with Tendermint's "null" transaction indexer (a supported setting): whether a
+			// transaction was executed before is asked of that node-local index
+			{Name: "tx-index-off", NoIndex: true},
 		}
 	}
 	panic("bad mode")
